@@ -114,6 +114,8 @@ func runC09(t *testing.T, sc c09scenario, f fault, chs ...*sched.Chooser) (res c
 		crashFileOK := false
 		var wipedAt time.Time
 		var oldReg int64
+		var wipedTokens []uint32
+		var wipedState ring.InstanceState
 		die := func() {
 			crashed = true
 			st.mu.Lock()
@@ -154,6 +156,7 @@ func runC09(t *testing.T, sc c09scenario, f fault, chs ...*sched.Chooser) (res c
 				if armed && w.Writer == "v1" && k == f.k && wipedAt.IsZero() {
 					if ent, ok := descOf(w.Out).Ingesters["v"]; ok {
 						oldReg = ent.RegisteredTimestamp
+						wipedTokens, wipedState = append([]uint32(nil), ent.Tokens...), ent.State
 					}
 					st.Wipe(ringKey)
 					wipedAt = time.Now()
@@ -241,6 +244,16 @@ func runC09(t *testing.T, sc c09scenario, f fault, chs ...*sched.Chooser) (res c
 			// a graceful stop: the entry is gone (unregister) or LEAVING with its tokens
 			if sc.victim.unregister && ok && f.kind == "none" {
 				fail("not-unregistered", "after a graceful stop with unregistering the entry is still there: %s", show(ent, ok))
+			}
+			if !sc.victim.unregister && f.kind == "wipe-after" && !wipedAt.IsZero() && sc.victim.finalSleep > 0 &&
+				wipedAt.Before(t0.Add(sc.stopAt+hbPeriod)) && hbPeriod < sc.victim.finalSleep {
+				// (the obligation exists only if a write of the lifecycler — the LEAVING state change or the heartbeat tick
+				// of its shutdown phase, one period after the stop request — still follows the wipe)
+				// the ring was lost while the instance was ACTIVE or LEAVING and it kept heartbeating for a while: it has
+				// re-registered itself with what it remembered, and leaves that entry behind (LEAVING, same tokens)
+				if !ok || ent.State != ring.LEAVING || fmt.Sprint(ent.Tokens) != fmt.Sprint(wipedTokens) {
+					fail("not-reregistered-while-leaving", "%s, %s: the ring was wiped when the entry was %s %v; after the (slow) graceful leave the entry is %s, want LEAVING with the same tokens", sc.name, f, wipedState, wipedTokens, show(ent, ok))
+				}
 			}
 		default:
 			if !ok || ent.State != ring.ACTIVE || len(ent.Tokens) != numTokens {
@@ -373,6 +386,8 @@ func scenariosC09() []c09scenario {
 		{name: "leave-keep-restart-fewer-tokens", victim: lcSpec{}, stopAt: 6500 * time.Millisecond, restartTokens: 1},
 		{name: "join-restart-more-tokens", victim: lcSpec{joinAfter: 1500 * time.Millisecond}, restartTokens: 3},
 		{name: "leave-keep-tokens-claimed", victim: lcSpec{tokensFile: tokensPath}, stopAt: 6500 * time.Millisecond, claim: true},
+		// a slow leave (6 s of heartbeating as LEAVING): the ring may be lost while the instance is leaving
+		{name: "leave-keep-slow", victim: lcSpec{finalSleep: 6 * time.Second}, stopAt: 6500 * time.Millisecond},
 		{name: "basic-join", victim: lcSpec{basic: true, tokensFile: tokensPath}},
 		{name: "basic-restart-from-file", victim: lcSpec{basic: true, tokensFile: tokensPath}, fileStart: []uint32{11, 12}},
 		{name: "basic-leave-unregister", victim: lcSpec{basic: true, unregister: true}, stopAt: 6500 * time.Millisecond},
@@ -386,7 +401,7 @@ func TestC09Crash(t *testing.T) {
 	for _, s := range scs {
 		names = append(names, s.name)
 	}
-	rep.Bound = fmt.Sprintf("scenarios %v (full Lifecycler and BasicLifecycler + TokensPersistency, always next to a bystander lifecycler holding tokens): a crash before and after the commit of EVERY store write the lifecycler performs followed by a restart with the same identity on the surviving store and tokens file; every window [a,b) of failing CAS attempts; a wipe of the ring key after every commit; restarts with a larger / smaller configured token count; the dead instance's tokens claimed by the bystander before the restart; after every recovery the ring key is lost once more", names)
+	rep.Bound = fmt.Sprintf("scenarios %v (full Lifecycler and BasicLifecycler + TokensPersistency, always next to a bystander lifecycler holding tokens): a crash before and after the commit of EVERY store write the lifecycler performs followed by a restart with the same identity on the surviving store and tokens file; every window [a,b) of failing CAS attempts; a wipe of the ring key after every commit (also while the instance is LEAVING, in a leave that takes 6 s); restarts with a larger / smaller configured token count; the dead instance's tokens claimed by the bystander before the restart; after every recovery the ring key is lost once more", names)
 	rep.Rule = "pass 0 runs fault-free and learns the number N of commits; then one real execution per fault point under the virtual clock; oracle: back to ACTIVE with the full token count, tokens recorded before the crash (ring entry, else tokens file) kept, registration time kept if the entry survived and fresh after a wipe, no token shared with the bystander, bystander untouched, every write still passes the C08 monitor, tokens file equals the ring entry, and what the recovered process re-registers from memory after a later loss of the ring equals what it had registered; distinct_nontrivial = distinct (scenario, fault) whose run differs from the fault-free one"
 	deadline := ev.Deadline(8 * time.Minute)
 	si, sn := ev.Shard()
@@ -429,7 +444,7 @@ func TestC09Crash(t *testing.T) {
 				rep.NotExhaustive("deadline or violation cap")
 				break
 			}
-			if sc.stopAt > 0 && (f.kind == "cas-window" || f.kind == "wipe-after") {
+			if sc.stopAt > 0 && (f.kind == "cas-window" || f.kind == "wipe-after" && sc.victim.finalSleep == 0) {
 				continue
 			}
 			if ev.Thorough() {
